@@ -193,4 +193,15 @@ def h_purity(pi: int, ui: List[int], uj: List[int], ndraw: int) -> bool:
     f = [d7.draw() for _ in range(ndraw)]
     if any(not _same(x, y) for x, y in zip(e, f)) or s6.calls != s7.calls:
         return rt.fail(f"C14:{cname}:draws-after-repointing-depend-on-the-old-stream", lambda: f"{cname}{params}: {e} vs fresh {f}")
+    # the same stream object, rewound and assigned again: the draws are those of a fresh instance on that stream
+    s8 = Scripted(us)
+    d8 = cls(s8, *params)
+    d8.draw()
+    s8.reset()
+    s8.calls = 0
+    d8.stream = s8
+    g = [d8.draw() for _ in range(ndraw)]
+    if any(not _same(x, y) for x, y in zip(a, g)):
+        return rt.fail(f"C14:{cname}:draws-after-reassigning-the-rewound-stream-differ-from-a-fresh-instance",
+                       lambda: f"{cname}{params} uniforms {us}: {g} vs fresh {a}")
     return True
